@@ -33,6 +33,15 @@ CLAIMS = {
  "C13": ("model_checking", "5 C13", "gram",
          "Every parse of the bounded space on a fresh object under a tracking allocator whose blocks are never recycled inside a case: parse_free only gets live blocks of the same parse, at most once; everything reachable lies in live blocks; the tree is unchanged after yaep_free_grammar; yaep_free_tree releases every block exactly once and calls the terminal callback once per TERM; definition inputs are freed right after the defining call (ASan job).",
          TECH + " (engine gram, tracking allocator monitor)"),
+ "C09": ("model_checking", "5 C09", "gram",
+         "Differential over lookahead arguments {0,1,2,-5,3,7,INT_MAX} and debug levels {0..6,-1} on every case of the bounded families, plus the cache soundness hook: every hit of the (set, terminal, lookahead) goto cache is recomputed and must give the same hash-consed set, also on exhaustively generated repetitive inputs (all concatenations of <= r fragments, one offending fragment at every position, extended periodically to hundreds / thousands of tokens).",
+         TECH + " (engine gram: cross-configuration differential + YAEP_VERIF cache self-check hook)"),
+ "C11": ("model_checking", "5 C11", "txt",
+         "Every grammar of the families printed under a product of 384 lexical variations must give what yaep_read_grammar gives on the denoted grammar (return code and all parses on all short inputs); all prefixes / single-character edits of 28 seed texts and all byte strings up to length 4 (5) over a lexer-covering alphabet are judged by a three-valued reference reader of the documented syntax.",
+         "bounded exhaustive enumeration of description texts on the real code against a reference reader and the callback-defined twin (engine txt)"),
+ "C12": ("model_checking", "5 C12", "txt",
+         "The enumerations of the txt, def, hist and gram engines re-run under ASan + UBSan subset + watchdog, plus long symbol names through every message-producing error (message length <= 200) and 300-symbol grammars; any sanitizer report, signal, exit() or timeout is a violation with the case attached. One known finding (D33, exponential recovery on densely recurring errors) bounds the recovery spaces to short inputs.",
+         "bounded exhaustive enumeration on the real code under sanitizers as monitors (engines txt, def, hist, gram)"),
  "C10": ("model_checking", "5 C10", "def",
          "Full product of small terminal lists x rule lists (names incl. reserved ones, codes incl. negative/repeated, 17 translation/cost forms) x strict flag; rc = 0 iff the reference WF model finds no documented defect, otherwise rc names a defect that is present; error state, refusal to parse and a following good definition are checked after every rejection.",
          "bounded exhaustive enumeration of callback-level descriptions on the real code against a reference well-formedness model (engine def)"),
@@ -78,7 +87,8 @@ m = {
     "hooks": {"guard": "YAEP_VERIF", "enable": "checks compile /repo/src with -DYAEP_VERIF (bin/vcheck build)",
               "baseline_off_cmd": "bin/baseline_off.sh", "source_commits": hooks_commits, "add_only": True},
     "engines": [
-        {"name": "def", "path": "harness/eng_def.cc", "serves_properties": ["C10"], "kind_free_text": "product enumeration of callback-level grammar descriptions, reference well-formedness model"},
+        {"name": "txt", "path": "harness/eng_txt.cc", "serves_properties": ["C11", "C12"], "kind_free_text": "enumeration of description texts (printed grammars x lexical variations, 1-edit mutants, short byte strings) judged by a three-valued reference reader and the callback-defined twin"},
+        {"name": "def", "path": "harness/eng_def.cc", "serves_properties": ["C10", "C12"], "kind_free_text": "product enumeration of callback-level grammar descriptions, reference well-formedness model"},
         {"name": "hist", "path": "harness/eng_hist.cc", "serves_properties": ["C14", "C15"], "kind_free_text": "exploration of API call histories, one pristine forked process per history, fresh-object differential, dedup on model state + file-scope fingerprint (hook) + live blocks (hook)"},
         {"name": "cont", "path": "harness/eng_cont.cc", "serves_properties": ["C19"], "kind_free_text": "explicit-state BFS over container operation histories (C and C++), canonical layout states, harness allocator with explored realloc behaviour"},
         {"name": "gram", "path": "harness/eng_gram.cc", "serves_properties": ["C01", "C02", "C03", "C04", "C05", "C06", "C07", "C08", "C09", "C13"],
